@@ -25,6 +25,16 @@ type valRunner struct {
 	rep  *reporter
 	q    *modelQueue
 	mode string
+	// what earlier calls handed out (the bytes of the previous Encode, the value of the previous Decode): they belong to the
+	// caller and must stay what they were when the codecs are used again
+	prev struct {
+		id      string
+		enc     []byte // as returned (live)
+		encCopy []byte
+		dec     reflect.Value
+		decText string
+		dt      datatype.DataType
+	}
 }
 
 func newValRunner(res *lp.Result, mode string) *valRunner {
@@ -161,6 +171,23 @@ func (r *valRunner) roundTrip(vc vcase, rp rep, ifaceCheck bool) ([]byte, bool) 
 		if a, b := nilSig(gv, 0), nilSig(same.value, 0); a != b {
 			r.res.Count("nil-vs-empty-change/" + kindName(dt))
 		}
+	}
+	// earlier results are still what they were
+	if r.prev.id != "" {
+		if !bytes.Equal(r.prev.enc, r.prev.encCopy) {
+			r.rep.violation("bytes returned by an earlier Encode change when the codecs are used again", r.prev.id+"; then "+id, hexOrMark(r.prev.enc)+" was "+hexOrMark(r.prev.encCopy))
+		}
+		if r.prev.dec.IsValid() {
+			if back, err := fromGo(r.prev.dec, r.prev.dt); err != nil || render(back) != r.prev.decText {
+				r.rep.violation("value handed out by an earlier Decode changes when the codecs are used again", r.prev.id+"; then "+id, render(back)+" was "+r.prev.decText)
+			}
+		}
+		r.res.Count("earlier-results-rechecked")
+	}
+	r.prev.id, r.prev.enc, r.prev.encCopy, r.prev.dt = id, enc, append([]byte{}, enc...), dt
+	r.prev.dec, r.prev.decText = reflect.Value{}, ""
+	if same.status == "ok" && same.text == want && same.text != "~" && same.value.IsValid() {
+		r.prev.dec, r.prev.decText = same.value, same.text
 	}
 	// *interface{}
 	goText := same.text
@@ -1213,6 +1240,19 @@ func runC04V(res *lp.Result) {
 		if hasUnhashableKey(dt) {
 			res.Count("tag/oddkey")
 		}
+		var arrayDests []reflect.Type
+		switch x := dt.(type) {
+		case *datatype.List:
+			if et, ok := wide.build(x.ElementType, nil); ok {
+				arrayDests = []reflect.Type{reflect.ArrayOf(0, et), reflect.ArrayOf(1, et), reflect.ArrayOf(2, et)}
+			}
+		case *datatype.Set:
+			if et, ok := wide.build(x.ElementType, nil); ok {
+				arrayDests = []reflect.Type{reflect.ArrayOf(0, et), reflect.ArrayOf(1, et), reflect.ArrayOf(2, et)}
+			}
+		case *datatype.Tuple:
+			arrayDests = []reflect.Type{reflect.ArrayOf(0, tIface), reflect.ArrayOf(1, tIface), reflect.ArrayOf(len(x.FieldTypes)+1, tIface)}
+		}
 		// base encodings
 		g := &valueGen{rng: rng, version: ver, nullProb: 6, fixedKey: 2}
 		var bases [][]byte
@@ -1295,6 +1335,17 @@ func runC04V(res *lp.Result) {
 				r.rep.violationG("CQL value decoder panics: "+p.words, tn, id+" into *interface{}", p.full+" @ "+p.frame)
 			}
 			res.Count("outcome/interface/" + ifc.status)
+			// a fixed-size array as the destination of a list, set or tuple: the wire may carry more (or fewer) elements than the
+			// array holds — an error at most, never a panic
+			for _, at := range arrayDests {
+				if guard(func() { codec.Decode(in, reflect.New(at).Interface(), ver) }) != nil {
+					_, p3 := decodeInto(codec, dt, ver, in, at)
+					if p3 != nil {
+						r.rep.violationG("CQL value decoder panics: "+p3.words, tn, id+" into "+at.String(), p3.full+" @ "+p3.frame)
+					}
+				}
+				res.Count("outcome/array-destination")
+			}
 			ref := ifc
 			if typed != nil {
 				ty, p2 := decodeInto(codec, dt, ver, in, typed)
